@@ -691,16 +691,31 @@ def run_witnesses(ctx):
                   sample={"witness": n, "violating program": "rejected with the expected error code", "twin": "compiles"})
 
 
+def run_gate(ctx, f=None, g=None):
+    """the gate of both constructors and the content of the validators; also re-run by the properties that quantify over
+    "every accepted board" and lean on what the gate establishes (C01: the en-passant generator never consults the
+    check mask because the gate ties the checkers to the pushed pawn)"""
+    if ctx.pid != "C06":
+        key = ("c06-gate", getattr(ctx, "rule_suffix", ""))
+        done = ctx.__dict__.setdefault("_groups_done", set())
+        if key in done:
+            return
+        done.add(key)
+    f = f or ctx.facts("A")
+    g = g or gatemod.Gate(ctx, f)
+    ctx.rule("gate")
+    g.check_gate(ctx, B + "::from_fen", "parser")
+    g.check_gate(ctx, BUILDER + "::build", "builder")
+    check_validators(ctx, f, g.L, g)
+
+
 def run(ctx):
     ctx.explanation = __doc__
     f = ctx.facts("A")
     g = gatemod.Gate(ctx, f)
     run_witnesses(ctx)
     check_encapsulation(ctx, f, g)
-    ctx.rule("gate")
-    g.check_gate(ctx, B + "::from_fen", "parser")
-    g.check_gate(ctx, BUILDER + "::build", "builder")
-    check_validators(ctx, f, g.L, g)
+    run_gate(ctx, f, g)
     # "every board the library hands out" includes the successors made by play and null_move: their clocks stay in the
     # gate's range only if the transfer functions are min(old+1, 100) / reset and saturating +1 (owned by C02 and C14;
     # re-run here)
